@@ -214,3 +214,205 @@ def window_state_rule(ctx, rule_id: str):
             raise AnalysisError(f"{q}: the loop around _ind2save iterates `{src(it)[:80]}` - not wg.firstlast nor a generator helper of the repository")
     if n == 0:
         raise AnchorMissing("no _ind2save call found in _process_NP24 / _process_NP21")
+
+
+# ---------------------------------------------------------------------------------------------------------------------
+# per-shank output files: which entry key holds what, how the writer gets at the file, and whether a re-run starts empty
+# ---------------------------------------------------------------------------------------------------------------------
+PREPARE = (CLS + "._prepare_files_NP24", CLS + "._prepare_files_NP21")
+
+
+def entry_defs(fi):
+    """{entry key: [(value, stmt)]} for `X["key"] = value` stores and dict displays `{"key": value, ...}` in a prepare step."""
+    out = {}
+    for st in walk_function(fi.node):
+        if isinstance(st, ast.Assign) and len(st.targets) == 1:
+            t = st.targets[0]
+            if isinstance(t, ast.Subscript) and isinstance(t.slice, ast.Constant) and isinstance(t.slice.value, str):
+                out.setdefault(t.slice.value, []).append((st.value, st))
+            if isinstance(st.value, ast.Dict):
+                for k, v in zip(st.value.keys, st.value.values):
+                    if isinstance(k, ast.Constant) and isinstance(k.value, str):
+                        out.setdefault(k.value, []).append((v, st))
+    return out
+
+
+def _mode_of(call):
+    """(path, mode) of open(path, mode) / path.open(mode); mode None when it is not a literal."""
+    from sa.struct import kwarg
+    nm = call_name(call)
+    if nm != "open":
+        return None
+    if isinstance(call.func, ast.Name):
+        p = call.args[0] if call.args else None
+        m = call.args[1] if len(call.args) > 1 else kwarg(call, "mode")
+    else:
+        p = call.func.value
+        if isinstance(p, ast.Name) and p.id in ("io", "os", "gzip", "builtins"):
+            p = call.args[0] if call.args else None
+            m = call.args[1] if len(call.args) > 1 else kwarg(call, "mode")
+        else:
+            m = call.args[0] if call.args else kwarg(call, "mode")
+    mode = m.value if isinstance(m, ast.Constant) and isinstance(m.value, str) else ("r" if m is None else None)
+    return p, mode
+
+
+def file_effects(fi):
+    """[(kind, path expr, call)]: kind in {'truncate', 'append', 'create-keep', 'mkdir'} for the filesystem calls of a function.
+    truncate: the file is empty (or absent) afterwards whatever it held before - open(.., 'w'), write_bytes/write_text, unlink;
+    create-keep: the file exists afterwards but keeps what it held - touch(), open(.., 'a'/'x'/'r+')."""
+    out = []
+    for c in find(fi.node, ast.Call, nested=False):
+        nm = call_name(c)
+        if nm == "open":
+            pm = _mode_of(c)
+            if pm is None or pm[0] is None:
+                continue
+            p, mode = pm
+            if mode is None:
+                out.append(("unknown", p, c))
+            elif "w" in mode:
+                out.append(("truncate", p, c))
+            elif "a" in mode:
+                out.append(("append", p, c))
+            elif "+" in mode or "x" in mode:
+                out.append(("create-keep", p, c))
+        elif nm in ("write_bytes", "write_text", "unlink") and isinstance(c.func, ast.Attribute):
+            out.append(("truncate", c.func.value, c))
+        elif nm == "touch" and isinstance(c.func, ast.Attribute):
+            out.append(("create-keep", c.func.value, c))
+        elif nm in ("mkdir", "makedirs") and isinstance(c.func, ast.Attribute):
+            out.append(("mkdir", c.func.value, c))
+    return out
+
+
+def _same_path(du, a, at_a, b, at_b):
+    from sa.struct import norm
+    if loc_name(a) is not None and loc_name(a) == loc_name(b):
+        return True
+    return norm(expand_name(du, a, at_a)) == norm(expand_name(du, b, at_b))
+
+
+def _entry_key_of(du, p, at):
+    """The entry key a path expression reads: X['ap_file'] / X[f'{etype}_file'] -> 'ap_file' / '*_file'."""
+    from sa.struct import string_value
+    v = expand_name(du, p, at)
+    if isinstance(v, ast.Subscript):
+        if isinstance(v.slice, ast.Constant) and isinstance(v.slice.value, str):
+            return v.slice.value, v.value
+        if isinstance(v.slice, ast.JoinedStr):
+            parts = []
+            for x in v.slice.values:
+                parts.append(x.value if isinstance(x, ast.Constant) else "*")
+            return "".join(parts), v.value
+    return None, None
+
+
+def split_writer(repo):
+    """How _split2shanks gets at a shank's file. -> list of dicts (one per tofile call):
+    {call, data, owner (expr of the entry whose chns select the columns), file_owner (entry the handle belongs to), key (entry key pattern),
+     mode ('handle' when the writer uses a handle opened elsewhere, else the literal open mode), node}"""
+    fi = repo.fn(CLS + "._split2shanks")
+    du = DefUse(fi.node)
+    out = []
+    for c in find(fi.node, ast.Call, nested=False):
+        if call_name(c) != "tofile" or not isinstance(c.func, ast.Attribute) or not c.args:
+            continue
+        data = expand_name(du, c.func.value, c)
+        h = c.args[0]
+        rec = {"call": c, "data": data, "fi": fi, "du": du, "mode": None, "key": None, "file_owner": None, "open": None}
+        hv = h
+        if isinstance(h, ast.Name):
+            ds = du.strong_reaching(h.id, c)
+            if len(ds) == 1 and ds[0].kind == "with" and isinstance(ds[0].value, ast.Call):
+                hv = ds[0].value
+            elif len(ds) == 1 and ds[0].kind == "assign" and ds[0].value is not None:
+                hv = ds[0].value
+        if isinstance(hv, ast.Call) and call_name(hv) == "open":
+            p, mode = _mode_of(hv)
+            rec["mode"] = mode
+            rec["open"] = hv
+            if p is not None:
+                rec["key"], rec["file_owner"] = _entry_key_of(du, p, hv)
+        else:
+            k, owner = _entry_key_of(du, hv, c)
+            rec["mode"], rec["key"], rec["file_owner"] = "handle", k, owner
+        out.append(rec)
+    return fi, out
+
+
+def fresh_start_rule(ctx, rule_id):
+    """A shank file the writer appends to (a handle opened once with 'w', or the path re-opened with 'a' for every chunk) must be
+    EMPTY when the first chunk arrives: the prepare step truncates it (open 'w' / write_bytes / unlink), touch() or open 'a' keep what an
+    earlier run left there."""
+    from sa.cfg import conjuncts
+    from sa.struct import norm
+    repo = ctx.repo
+    fi_w, recs = split_writer(repo)
+    if not recs:
+        raise AnchorMissing("_split2shanks: no tofile call")
+    n = 0
+    for rec in recs:
+        c = rec["call"]
+        if rec["mode"] is None or rec["key"] is None:
+            raise AnalysisError(f"_split2shanks: cannot tell which file `{src(c)}` writes to")
+        if rec["mode"] != "handle" and "w" in rec["mode"]:
+            ctx.violation(fi_w, c, c, f"`{src(rec['open'])}` re-opens the shank file in truncating mode for every chunk: only the last window survives",
+                          key="reopen-truncates", rule=rule_id, name_free=True)
+            continue
+        pat = rec["key"]
+        for q in PREPARE:
+            fi = repo.fn(q)
+            du = DefUse(fi.node)
+            cfg = du.cfg
+            eds = entry_defs(fi)
+            eff = file_effects(fi)
+            if rec["mode"] == "handle":
+                # the handle entry itself is defined by an open call in the prepare step
+                hk = [k for k in eds if _key_matches(pat, k)]
+                for k in hk:
+                    for v, st in eds[k]:
+                        vv = expand_name(du, v, st)
+                        if isinstance(vv, ast.Call) and call_name(vv) == "open":
+                            _, mode = _mode_of(vv)
+                            n += 1
+                            ctx.check(mode is not None and "w" in mode, fi, st, st, f"the {k} handle is opened truncating ('{mode}'): a re-run starts from an empty file",
+                                      f"the {k} handle is opened with mode {mode!r}: frames of a forced re-run land behind what an earlier run left in the file",
+                                      key=f"fresh:{k}", rule=rule_id, name_free=True)
+                        else:
+                            raise AnalysisError(f"{q}: entry {k} is not an open(...) handle: `{src(v)[:60]}`")
+                continue
+            fks = [k for k in eds if _key_matches(pat, k)]
+            for k in fks:
+                for v, st in eds[k]:
+                    n += 1
+                    sn = cfg.node_for(st)
+                    sg = {(norm(t), pol) for tt, pp in cfg.guards(sn) for t, pol in conjuncts(tt, pp)}
+                    hit = None
+                    weak = None
+                    for kind, p, call in eff:
+                        same = _same_path(du, p, call, v, st)
+                        if not same:
+                            kk, _ = _entry_key_of(du, p, call)
+                            same = kk == k
+                        if not same:
+                            continue
+                        cn = cfg.node_for(call)
+                        cg = {(norm(t), pol) for tt, pp in cfg.guards(cn) for t, pol in conjuncts(tt, pp)}
+                        if kind == "truncate" and cg <= sg:
+                            hit = call
+                        elif kind in ("create-keep", "append"):
+                            weak = call
+                    how = f"; `{src(weak)}` creates the file but keeps what it already holds" if weak is not None else ""
+                    ctx.check(hit is not None, fi, st, st,
+                              f"{k} is emptied by `{src(hit) if hit is not None else ''}` before the first chunk is appended",
+                              f"_split2shanks appends every chunk to {k} (`{src(rec['open'])}`) and nothing in {q.rsplit('.', 1)[1]} empties that file{how}: "
+                              "when uncompressed output of an earlier (complete or interrupted) run is still there, a forced re-run writes its frames BEHIND the stale ones",
+                              key=f"fresh:{k}", rule=rule_id, name_free=True)
+    if n == 0:
+        raise AnchorMissing("no shank output file definition found in the prepare steps")
+
+
+def _key_matches(pat, k):
+    import fnmatch
+    return fnmatch.fnmatchcase(k, pat)
